@@ -1,6 +1,7 @@
 package protocol
 
 import (
+	"errors"
 	"fmt"
 
 	"github.com/fxamacker/cbor/v2"
@@ -97,7 +98,11 @@ func (m *Message) MarshalBinary() ([]byte, error) {
 func (m *Message) UnmarshalBinary(data []byte) error {
 	deserialized := m.toMarshallable()
 	if err := cbor.Unmarshal(data, deserialized); err != nil {
-		return nil
+		return fmt.Errorf("protocol: message: %w", err)
+	}
+	// an empty map or a null decodes without error and leaves everything empty
+	if deserialized.From == "" || deserialized.Protocol == "" {
+		return errors.New("protocol: message names no sender or no protocol")
 	}
 	m.SSID = deserialized.SSID
 	m.From = deserialized.From
